@@ -21,7 +21,7 @@ META = {
                    'nesting, worker threads) and faithful-domain values; each is recorded through a real cassette '
                    '(memory / file / S3-over-fake-bucket), the recorder and cassette objects are restarted, and the same '
                    'program is replayed with the environment armed as a tripwire; threaded programs run both phases under '
-                   'the seeded line-level scheduler.  Evidence, not proof: programs and schedules are sampled.'),
+                   'the seeded line-level scheduler.  Evidence, not proof: programs and schedules are sampled. Also: input bodies that modify their arguments in place, and the library\'s DEBUG logging switched on.'),
     'level_note': ('Trusted: generator / interpreter / journal in engines/recplay.py, fake S3 bucket (simkit/fakes3.py), '
                    'scheduler. Assumes inputs are functions of alias + captured arguments, no mutation after capture, '
                    'values inside the pinned serializer\'s faithful domain (checked per generated value).'),
